@@ -160,13 +160,27 @@ func (c *c10Ctl) IncReadOps()                           {}
 func (c *c10Ctl) IncMaxEventSizeExceeded(lvs ...string) {}
 
 // ---- scripted action and output
-type c10Action struct{ r *c10Run }
+type c10Action struct {
+	r   *c10Run
+	ctl pipeline.ActionPluginController
+}
 
-func (a *c10Action) Start(_ pipeline.AnyConfig, _ *pipeline.ActionPluginParams) {}
+func (a *c10Action) Start(_ pipeline.AnyConfig, p *pipeline.ActionPluginParams) { a.ctl = p.Controller }
 func (a *c10Action) Stop()                                                      {}
 func (a *c10Action) Do(e *pipeline.Event) pipeline.ActionResult {
 	id := c10ID(e)
+	if id >= c10KidBase { // a child of a split record: passes
+		return pipeline.ActionPass
+	}
 	rec := a.r.recs[id]
+	if rec.Cls == "S" && !e.IsChildKind() {
+		// split: the record's Commit (the one that marks the kafka offset) follows its children through the output
+		if kids := e.Root.Dig("kids"); kids != nil && kids.IsArray() {
+			a.r.log("DoRet", "id", id, "res", "pass")
+			a.ctl.Spawn(e, kids.AsArray())
+			return pipeline.ActionBreak
+		}
+	}
 	if rec.DelayUs > 0 {
 		time.Sleep(time.Duration(rec.DelayUs) * time.Microsecond)
 	}
@@ -188,7 +202,10 @@ type c10Output struct {
 	cancel  context.CancelFunc
 	rng     *rand.Rand
 	rmu     sync.Mutex
+	kidsAcked map[int]int
 }
+
+const c10KidBase = 100000 // children of split record i carry the ids c10KidBase+2i, c10KidBase+2i+1
 
 func (o *c10Output) Start(_ pipeline.AnyConfig, p *pipeline.OutputPluginParams) {
 	opts := &pipeline.BatcherOptions{
@@ -205,7 +222,22 @@ func (o *c10Output) Stop()                 { o.batcher.Stop(); o.cancel() }
 func (o *c10Output) Out(e *pipeline.Event) { o.batcher.Add(e) }
 func (o *c10Output) send(_ *pipeline.WorkerData, b *pipeline.Batch) error {
 	ids := []int{}
-	b.ForEach(func(e *pipeline.Event) { ids = append(ids, c10ID(e)) })
+	b.ForEach(func(e *pipeline.Event) {
+		id := c10ID(e)
+		if id >= c10KidBase {
+			// a split record is finished through its children: acknowledged once both are
+			parent := (id - c10KidBase) / 2
+			o.rmu.Lock()
+			o.kidsAcked[parent]++
+			full := o.kidsAcked[parent] == 2
+			o.rmu.Unlock()
+			if full {
+				ids = append(ids, parent)
+			}
+			return
+		}
+		ids = append(ids, id)
+	})
 	o.rmu.Lock()
 	d := o.rng.Intn(400)
 	o.rmu.Unlock()
@@ -248,7 +280,7 @@ func c10RunScenario(sc *c10Scenario) *c10Run {
 	})
 	p.SetOutput(&pipeline.OutputPluginInfo{
 		PluginStaticInfo:  &pipeline.PluginStaticInfo{Type: "verif_out"},
-		PluginRuntimeInfo: &pipeline.PluginRuntimeInfo{Plugin: &c10Output{r: r, rng: rand.New(rand.NewSource(sc.Seed))}, ID: "verif_out"},
+		PluginRuntimeInfo: &pipeline.PluginRuntimeInfo{Plugin: &c10Output{r: r, rng: rand.New(rand.NewSource(sc.Seed)), kidsAcked: map[int]int{}}, ID: "verif_out"},
 	})
 	r.log("Reset", "name", sc.Name)
 	p.Start()
@@ -270,6 +302,9 @@ func c10RunScenario(sc *c10Scenario) *c10Run {
 			assigned[topics[rec.Topic]] = append(assigned[topics[rec.Topic]], rec.Part)
 		}
 		val := []byte(fmt.Sprintf(`{"id":%d,"cls":"%s"}`, rec.ID, rec.Cls))
+		if rec.Cls == "S" {
+			val = []byte(fmt.Sprintf(`{"id":%d,"cls":"S","kids":[{"id":%d},{"id":%d}]}`, rec.ID, c10KidBase+2*rec.ID, c10KidBase+2*rec.ID+1))
+		}
 		if rec.Cls == "R" { // refused by the pipeline: not decodable
 			val = []byte(fmt.Sprintf(`{"id":%d,"cls":"R" BROKEN`, rec.ID))
 		}
